@@ -169,6 +169,7 @@ func w2NewAgent(name string, nShards int, now time.Time, seed uint64) *w2Agent {
 		ag.Shards = append(ag.Shards, sh)
 		a.shards = append(a.shards, &w2Shard{sh: sh, lastFlush: now})
 	}
+	ag.shardByMetricCount = uint32(nShards) // as the aggregator reports it for a cluster of nShards shards
 	ag.initBuiltInMetrics()
 	return a
 }
@@ -432,6 +433,8 @@ func w2Exec(t *testing.T, r *verifsim.Run) {
 	default: // never
 		secStart = uint32(base) + 1000000
 	}
+	secCfg := c.Intn(5, "secondary_cfg")
+	r.Config["secondary_cfg"] = secCfg
 	r.Config["shards"] = nShards
 	r.Config["twin"] = twin
 	r.Config["faulty"] = faulty
@@ -453,6 +456,19 @@ func w2Exec(t *testing.T, r *verifsim.Run) {
 			md.start = secStart
 			if nShards > 1 {
 				md.secondary = 1
+			}
+			// the primary shard may also come from the sharding strategy instead of the "shard" key;
+			// a configured secondary shard that IS the strategy's primary is no secondary at all
+			switch {
+			case nShards > 1 && secCfg == 1: // legacy zero-based shard_num, same shard as shard2
+				meta.ShardFixedKey, meta.ShardStrategy, meta.ShardNum = 0, format.ShardFixed, 1
+				md.primary, md.secondary = 1, -1
+			case nShards > 1 && secCfg == 2: // by metric id, shard2 names the very same shard
+				meta.ShardFixedKey, meta.ShardStrategy = 0, format.ShardByMetricID
+				md.primary, md.secondary = int(uint32(meta.MetricID)%uint32(nShards)), -1
+				meta.ShardFixedKey2 = uint32(md.primary) + 1
+			case nShards > 1 && secCfg == 3: // strategy primary on shard 1, secondary on shard 2
+				meta.ShardFixedKey, meta.ShardStrategy, meta.ShardNum = 0, format.ShardFixed, 0
 			}
 		} else {
 			meta.ShardFixedKey = uint32(1 + i%nShards)
